@@ -29,7 +29,11 @@ Inductive witem := WRun (a b : N) | WStuck (id : N).
    identifier and the writer hands that identifier to the next message inside the release callback: the next
    message got the same identifier; it is registered as unacknowledged afterwards; its own acknowledgement finds it;
    the send quota (1 at the start) is back at 1 in the end. *)
-Inductive xcase := XWrap (items : list witem) | XBulk (n got : Z) | XAckOrder (same_id kept released : bool) (quota : Z).
+(* XTail: n messages were delivered and acknowledged on one connection, three more delivered and not acknowledged; the
+   connection ended, the session came back: [again] = the sequence numbers (0-based) of the retransmissions (DUP set) in
+   arrival order - the three, in the order in which they were first sent (WriterProofs.retransmit_before_new) *)
+Inductive xcase := XWrap (items : list witem) | XBulk (n got : Z) | XAckOrder (same_id kept released : bool) (quota : Z)
+                 | XTail (n : Z) (again : list Z).
 
 Definition free_run (a b : N) (stuck : list N) : bool :=
   (1 <=? a) && (a <=? b) && (b <=? 65535) && forallb (fun x => (x <? a) || (b <? x)) stuck.
@@ -53,6 +57,7 @@ Definition xcase_ok (x : xcase) : bool :=
   match x with
   | XWrap its => wrap_ok 0 [] its
   | XBulk n got => (got =? n)%Z
+  | XTail n again => match again with [a; b; c] => ((a =? n) && (b =? n + 1) && (c =? n + 2))%Z | _ => false end
   | XAckOrder same kept released quota => same && kept && released && (quota =? 1)%Z
   end.
 
